@@ -127,6 +127,24 @@ pub const WITNESSES: [(&str, &str, &str); 5] = [
     ("C02-skip-in-push", "", "r0 = @{ PUSH((!\"y\" ~ ANY)*) ~ \"y\" ~ POP }\n"),
 ];
 
+/// hand-written grammars that are always part of the behavioural batch: one per mechanism in which the two back-ends are
+/// built differently (atomic sequences / repetitions and the implicit skip, the skip with overlapping WHITESPACE / COMMENT,
+/// the modifier wrappers entered from an atomic caller, flattened sequences around stack operations)
+pub const PROBES: [&str; 11] = [
+    // before the restorer knew POP_ALL (fix 5dcbc11) the two back-ends differed here on `xy5y` (Coq: C02_dirty_atomic_rep_refuted)
+    "r0 = @{ PUSH(\"x\") ~ PUSH(\"y\") ~ (\"5\" | POP_ALL)* ~ DROP }\n",
+    "r0 = @{ \"x\" ~ \"y\" ~ \"x\" }\nWHITESPACE = _{ \" \" }\n",
+    "r0 = @{ \"x\"* ~ \"y\" }\nr1 = { \"x\"* ~ \"y\" }\nWHITESPACE = _{ \" \" }\n",
+    "r0 = { \"x\" ~ \"y\" }\nWHITESPACE = { \" \" | \"5 \" }\nCOMMENT = { \"5\" }\n",
+    "r0 = @{ r1 }\nr1 = !{ \"x\" ~ \"y\" }\nWHITESPACE = _{ \" \" }\n",
+    "r0 = @{ r1 ~ r3? }\nr1 = ${ \"x\" ~ r2 }\nr2 = { \"y\" }\nr3 = !{ \"5\" ~ r2 }\nWHITESPACE = { \" \" }\n",
+    "r0 = { PUSH(\"x\" | \"y\") ~ (\"5\" ~ PEEK)* ~ POP ~ EOI }\nWHITESPACE = _{ \" \" }\n",
+    "r0 = ${ (\"x\" ~ r1)+ }\nr1 = @{ (\"y\" | \"5\" ~ \"5\")* }\nCOMMENT = _{ \" \" }\n",
+    "r0 = { !\"y\" ~ (\"x\" | r1) ~ &ANY ~ r1* }\nr1 = _{ \"5\" ~ \"y\"? }\nWHITESPACE = @{ \" \"+ }\n",
+    "r0 = { (\"x\" ~ \"y\" | \"x\" ~ \"5\" | \"x\") ~ NEWLINE? ~ ASCII_DIGIT* }\nWHITESPACE = ${ \" \" }\nCOMMENT = @{ \"y\" ~ \"y\" }\n",
+    "r0 = @{ PUSH(\"x\")* ~ (\"y\" ~ POP)* ~ DROP? ~ \"5\" }\n",
+];
+
 // ------------------------------------------------------------------------------------------------
 fn derive_tokens(text: &str) -> Result<proc_macro2::TokenStream, String> {
     catch(|| pest_generator::derive_parser(quote! { #[grammar_inline = #text] pub struct P; }, true))
@@ -171,6 +189,7 @@ fn main() {
             print_unicode(&mut w);
             let mut stats = (0u64, 0u64, 0u64);
             for (_, x, text) in WITNESSES.iter() { if x.is_empty() || extras { tv_line(text, &mut w, &mut stats); } }
+            for text in PROBES.iter() { tv_line(text, &mut w, &mut stats); }
             for _ in 0..count { let g = gen_c02(&mut rng, extras); tv_line(&pest_grammar(&g), &mut w, &mut stats); }
             writeln!(w, "#SUMMARY\tevaluations={}\tdistinct_nontrivial={}\trejected={}", stats.0, stats.2, stats.1).unwrap();
         }
@@ -191,10 +210,18 @@ fn main() {
         "batch" => {
             // the source of a program that holds COUNT derive-generated parsers and compares each with pest_vm
             let count = arg_u64(2, 100); let mut rng = Rng::new(arg_u64(3, 0));
-            let mut texts: Vec<String> = WITNESSES.iter().filter(|(_, x, _)| x.is_empty() || extras).map(|(_, _, t)| t.to_string())
-                .filter(|t| derive_tokens(t).ok().and_then(|ts| syn::parse2::<syn::File>(ts).ok()).is_some()).collect();
+            // `batch COUNT SEED` = witnesses + probes + COUNT generated grammars; `batch 0 SEED FILE` = exactly the grammars of FILE (one per line, escaped)
+            let file = arg(4);
+            let unesc = |l: &str| l.replace("\\n", "\n").replace("\\t", "\t").replace("\\\\", "\\");
+            let mut texts: Vec<String> = if !file.is_empty() {
+                std::fs::read_to_string(&file).expect("grammar file").lines().filter(|l| !l.trim().is_empty()).map(|l| unesc(l)).collect()
+            } else {
+                WITNESSES.iter().filter(|(_, x, _)| x.is_empty() || extras).map(|(_, _, t)| t.to_string()).chain(PROBES.iter().map(|t| t.to_string())).collect()
+            };
+            texts.retain(|t| derive_tokens(t).ok().and_then(|ts| syn::parse2::<syn::File>(ts).ok()).is_some());
+            let count = if file.is_empty() { count + texts.len() as u64 } else { 0 };
             let mut tries = 0;
-            while (texts.len() as u64) < count + 5 && tries < count * 20 {
+            while (texts.len() as u64) < count && tries < count * 20 {
                 tries += 1;
                 let g = gen_c02(&mut rng, extras);
                 let text = pest_grammar(&g);
